@@ -59,6 +59,17 @@ pub enum KFault {
     KnownButFar,
 }
 
+/// the payment contract cannot be asked at all (as opposed to answering "not paid")
+#[derive(Clone, Copy, Debug, Default, Serialize, Deserialize, PartialEq, Eq, Hash)]
+pub enum Rpc {
+    #[default]
+    Ok,
+    Http503,
+    RevertError,
+    EmptyResult,
+    ConnectionClosed,
+}
+
 #[derive(Clone, Debug, Serialize, Deserialize)]
 pub struct Case {
     pub kind: Kind,
@@ -74,6 +85,9 @@ pub struct Case {
     pub e: EFault,
     /// contract verdict per quote (false = not confirmed)
     pub o: [bool; 3],
+    /// ... or no verdict can be had from the contract
+    #[serde(default)]
+    pub rpc: Rpc,
     /// this node's quote was issued for the stored address
     pub a: bool,
     /// position of this node's quote among the three
@@ -83,10 +97,10 @@ pub struct Case {
 
 impl Case {
     fn all_true(&self) -> bool {
-        self.s == SFault::Ok && self.p && self.k == KFault::Ok && self.e == EFault::Ok && self.o.iter().all(|x| *x) && self.a
+        self.s == SFault::Ok && self.p && self.k == KFault::Ok && self.e == EFault::Ok && self.o.iter().all(|x| *x) && self.rpc == Rpc::Ok && self.a
     }
     fn false_count(&self) -> usize {
-        [self.s != SFault::Ok, !self.p, self.k != KFault::Ok, self.e != EFault::Ok, !self.o.iter().all(|x| *x), !self.a].iter().filter(|x| **x).count()
+        [self.s != SFault::Ok, !self.p, self.k != KFault::Ok, self.e != EFault::Ok, !(self.o.iter().all(|x| *x) && self.rpc == Rpc::Ok), !self.a].iter().filter(|x| **x).count()
     }
 }
 
@@ -95,7 +109,11 @@ fn case_strategy() -> BoxedStrategy<Case> {
     let s = prop_oneof![(0u8..3).prop_map(SFault::CorruptSig), (0u8..3).prop_map(SFault::ClaimedOther), (0u8..3).prop_map(SFault::OtherPubKey), (0u8..3).prop_map(SFault::UndecodablePayee)];
     let e = prop_oneof![(0u8..3, 60u16..4000).prop_map(|(j, d)| EFault::Old(j, d)), (0u8..3, 60u16..4000).prop_map(|(j, d)| EFault::Future(j, d))];
     let k = prop_oneof![Just(KFault::Unknown), Just(KFault::KnownButFar)];
-    let o = prop_oneof![Just([false, true, true]), Just([true, false, true]), Just([true, true, false]), Just([false, false, false])];
+    // (verdicts, reachability): either the contract says "not paid" for some quote, or it cannot be asked
+    let o = prop_oneof![
+        4 => prop_oneof![Just([false, true, true]), Just([true, false, true]), Just([true, true, false]), Just([false, false, false])].prop_map(|o| (o, Rpc::Ok)),
+        2 => prop_oneof![Just(Rpc::Http503), Just(Rpc::RevertError), Just(Rpc::EmptyResult), Just(Rpc::ConnectionClosed)].prop_map(|r| ([true; 3], r)),
+    ];
     // which conditions are violated: all true / exactly one / several
     let mask = prop_oneof![
         3 => Just(0u8),
@@ -112,7 +130,8 @@ fn case_strategy() -> BoxedStrategy<Case> {
             p: mask & 2 == 0,
             k: if mask & 4 != 0 { k } else { KFault::Ok },
             e: if mask & 8 != 0 { e } else { EFault::Ok },
-            o: if mask & 16 != 0 { o } else { [true; 3] },
+            o: if mask & 16 != 0 { o.0 } else { [true; 3] },
+            rpc: if mask & 16 != 0 { o.1 } else { Rpc::Ok },
             a: mask & 32 == 0,
             own_pos,
             seed,
@@ -365,6 +384,13 @@ fn check(case: &Case, ctx: &mut Ctx) {
         for (j, h) in hashes.iter().enumerate() {
             st.verdicts.insert(*h, (case.o[j], 7 + j as u64));
         }
+        st.outage = match case.rpc {
+            Rpc::Ok => 0,
+            Rpc::Http503 => 1,
+            Rpc::RevertError => 2,
+            Rpc::EmptyResult => 3,
+            Rpc::ConnectionClosed => 4,
+        };
     }
     let before = cl.snapshot(0);
     let held_before = before.contains_key(&pl.key.to_vec());
@@ -385,10 +411,11 @@ fn check(case: &Case, ctx: &mut Ctx) {
     let all_true = case.all_true() && k_ok;
     let fc = case.false_count();
     ctx.sample = Some(serde_json::json!({"case": case, "result": format!("{res:?}"), "stored_new": stored_new, "contract_calls": calls.len()}));
-    ctx.canon = Some(format!("{:?}/{}/{}/{:?}/{}/{:?}/{:?}/{:?}/{}/{}", case.kind, case.paid, case.prior.min(1), case.s, case.p, case.k, case.e, case.o, case.a, case.rt_peers));
+    ctx.canon = Some(format!("{:?}/{}/{}/{:?}/{}/{:?}/{:?}/{:?}/{}/{}", case.kind, case.paid, case.prior.min(1), case.s, case.p, case.k, case.e, (case.o, case.rpc), case.a, case.rt_peers));
     ctx.label(format!("kind_{:?}_{}", case.kind, if case.paid { "paid" } else { "unpaid" }));
     ctx.label(if case.prior == 0 { "key_absent" } else { "key_held" });
     ctx.label(format!("conditions_false_{}", fc.min(2)));
+    ctx.label_if(case.rpc != Rpc::Ok, &format!("contract_unreachable_{:?}", case.rpc));
     ctx.nontrivial_if(case.paid && fc <= 1 && k_ok);
 
     // the bystander never changes, no key other than the target ever appears
@@ -444,11 +471,11 @@ fn check(case: &Case, ctx: &mut Ctx) {
             let sig = if only_a {
                 "stored_with_own_quote_issued_for_another_address".to_string()
             } else {
-                format!("stored_despite_failed_condition/S{}P{}K{}E{}O{}A{}", (case.s == SFault::Ok) as u8, case.p as u8, (case.k == KFault::Ok) as u8, (case.e == EFault::Ok) as u8, case.o.iter().all(|x| *x) as u8, case.a as u8)
+                format!("stored_despite_failed_condition/S{}P{}K{}E{}O{}A{}", (case.s == SFault::Ok) as u8, case.p as u8, (case.k == KFault::Ok) as u8, (case.e == EFault::Ok) as u8, (case.o.iter().all(|x| *x) && case.rpc == Rpc::Ok) as u8, case.a as u8)
             };
-            ctx.fail(sig, format!("{:?}: stored new data although S={:?} P={} K={:?} E={:?} O={:?} A={}", case.kind, case.s, case.p, case.k, case.e, case.o, case.a));
+            ctx.fail(sig, format!("{:?}: stored new data although S={:?} P={} K={:?} E={:?} O={:?} A={}", case.kind, case.s, case.p, case.k, case.e, (case.o, case.rpc), case.a));
         } else if res.is_ok() {
-            ctx.fail("invalid_payment_not_rejected", format!("{:?}: nothing stored but the upload returned Ok with S={:?} P={} K={:?} E={:?} O={:?} A={}", case.kind, case.s, case.p, case.k, case.e, case.o, case.a));
+            ctx.fail("invalid_payment_not_rejected", format!("{:?}: nothing stored but the upload returned Ok with S={:?} P={} K={:?} E={:?} O={:?} A={}", case.kind, case.s, case.p, case.k, case.e, (case.o, case.rpc), case.a));
         }
         if !stored_new && after != before {
             ctx.fail("rejected_upload_changed_store", format!("{:?}", case.kind));
